@@ -69,14 +69,35 @@ def check(s, brk):
 
 
 def check_rotate(s):
-    """ill-formed input to the fast rotation: a value or SecondaryStructureError only"""
+    """ill-formed input to the fast rotation: a value or SecondaryStructureError only; and the imbalances the rotation
+    can see must be reported.  The rotation looks at the strand it moves (everything before the first break) and at the
+    remaining strands separately: a bracket opened on the moved strand may be closed later and a bracket closed on the
+    remaining strands may have been opened on the moved one, but a ')' on the moved strand that no earlier '(' of that
+    strand matches, and a '(' after the first break that no later ')' matches, have no partner anywhere in the structure."""
     seq = ["+" if c == "+" else "d" for c in s]
+    visible = None
+    if "+" in s:
+        p = s.index("+")
+        depth = 0
+        for c in s[:p]:
+            depth += (c == "(") - (c == ")")
+            if depth < 0:
+                visible = "the strand it moves closes a bracket that was never opened"
+                break
+        depth = 0
+        for c in reversed(s[p + 1:]):
+            depth += (c == ")") - (c == "(")
+            if depth < 0 and visible is None:
+                visible = "the remaining strands open a bracket that is never closed"
+                break
     try:
-        rotate_complex_once(seq, list(s))
+        r = rotate_complex_once(seq, list(s))
     except SecondaryStructureError:
         return None
     except Exception as e:
         return f"rotate_complex_once raised {type(e).__name__}"
+    if visible is not None:
+        return (f"rotate_complex_once returned {''.join(r[1])!r} instead of raising SecondaryStructureError although {visible}")
     return None
 
 
